@@ -325,6 +325,25 @@ def run_case(case):
                     V("scrub-bad-marks-wrong:" + cmdk, "%s: status bad=%s has_bad=%s decoded=%s expected=%s" %
                       (label, sorted(bad), nbad, sorted(dec), sorted(want_bad)), what)
                 res["counters"]["scrub_runs"] = res["counters"].get("scrub_runs", 0) + 1
+                # ---- what scrub wrote into the array state must not confuse later commands: with the state left by the
+                # scrub (bad marks), the data errors located by check -a are still exactly the damaged blocks, and once the
+                # damage is gone scrub -p bad finds nothing and clears the marks
+                if covering and unsynced is None and cmdk in ("scrub-full", "scrub-100") and not _unmatched(res) and rng.random() < 0.6:
+                    r2 = a.cmd("check", "-a", variant=variant)
+                    od2, _op2, oo2 = observed_errors(r2)
+                    if od2 != exp_data:
+                        V("after-scrub:data-errors-located-differently:check-a", "%s, then check -a: missing %s unexpected %s" %
+                          (label, evidence.jsonable(sorted(exp_data - od2)[:3]), evidence.jsonable(sorted(od2 - exp_data)[:3])), what)
+                    undo.restore()
+                    r3 = a.cmd("scrub", "-p", "bad", variant=variant)
+                    od3, op3, oo3 = observed_errors(r3)
+                    bad3, nbad3, dec3 = bad_marks(a, variant)
+                    if od3 or op3 or oo3 or r3.rc != 0:
+                        V("after-scrub:errors-on-undamaged-array:scrub-bad", "%s, damage undone, then scrub -p bad: rc=%s data %s parity %s" %
+                          (label, r3.rc, evidence.jsonable(sorted(od3)[:3]), evidence.jsonable(sorted(op3)[:3])), what)
+                    elif bad3 or dec3 or nbad3:
+                        V("after-scrub:bad-marks-not-cleared", "%s, damage undone, then scrub -p bad: still bad %s" % (label, sorted(bad3 | dec3)), what)
+                    res["counters"]["scrub_followups"] = res["counters"].get("scrub_followups", 0) + 1
                 restore_content()
             res["counters"]["detections_checked"] = res["counters"].get("detections_checked", 0) + len(want_data) + len(want_par)
             undo.restore()
